@@ -2,3 +2,7 @@ import LyModel.Props.C01Lyb
 #print axioms LyModel.Props.C01Lyb.params_gen_ok
 #print axioms LyModel.Props.C01Lyb.lyb_chunk_roundtrip
 #print axioms LyModel.Props.C01Lyb.lyb_chunk_roundtrip_gen
+#print axioms LyModel.Props.C01Lyb.lyb_hash_lookup_correct
+#print axioms LyModel.Props.C01Lyb.lyb_hash_lookup_correct_real
+#print axioms LyModel.Props.C01Lyb.lyb_hash_siblings_total_fails
+#print axioms LyModel.Props.C01Lyb.lyb_hash_siblings_total_partial
